@@ -61,6 +61,52 @@ def _uses(body, local):
     return out
 
 
+_MATCHED = set()
+
+
+def _matched_arms(R, core, defns):
+    """a library Result that is matched (`match r {..}`, `if let Ok(v) = r`, `let Ok(v) = r else {..}`) instead of propagated:
+    every path through its Err arm must end in an error outcome - an Err / propagated return, or an item / state that
+    carries an error - never in a plain Ok value, a default or a `break` to the code after the loop"""
+    from .. import walk
+    n = 0
+    for defn in sorted(defns):
+        b = core.bodies.get(defn)
+        if b is None or b.kind == "Closure":
+            continue
+        for p in walk.walk(b, core, max_paths=1500, auto_inline=False):
+            if p.outcome[0] != "return":
+                continue
+            for a in p.atoms():
+                c = a[1]
+                if c[0] != "discr" or walk.atom_variant(a) != "Err":
+                    continue
+                x = mir.strip_refs(c[1])
+                if not isinstance(x, tuple) or x[0] != "call" or not _lib_result_call(core, x):
+                    continue
+                n += 1
+                out = p.outcome[1]
+                text = show(out)
+                carries = any(isinstance(y, tuple) and y[0] == "variant" and y[2] == "Err" for y in mir.walk_expr(out))
+                okk = carries or walk.is_err_term(out) is not False or "Err{" in text or "errval(" in text or "Error::" in text or \
+                    "InputEndedUnexpectedly" in text or "Invalid" in text
+                R.check(okk, b.key, "error arm of " + x[1], "the Err arm of a matched library result ends in a non-error "
+                        "outcome (%s): the error is swallowed" % text[:80], mir.loc(b, 0),
+                        sample={"fn": b.key, "matched": x[1], "err_arm_outcome": text[:80]})
+    return n
+
+
+def _lib_result_call(core, x):
+    """the call term yields Result<_, desert::Error>: a local function / trait method whose return type says so"""
+    d = x[2]
+    cb = core.bodies.get(d) if d else None
+    if cb is not None:
+        return _is_lib_result(cb.locals[0]["ty"])
+    return x[1].startswith(("BinaryInput::", "BinaryDeserializer::", "BinarySerializer::", "BinaryOutput::write_compressed")) or \
+        x[1].endswith(("as BinaryDeserializer>::deserialize", "as BinarySerializer>::serialize")) or \
+        "as BinaryInput>::" in x[1]
+
+
 ERR_CLOSURE = ("Result<T, E>::map_or_else", "Result<T, E>::or_else", "Result<T, E>::unwrap_or_else")
 _CRATE = [None]
 
@@ -163,7 +209,8 @@ def _flows_ok(body, local, seen, depth=0):
         if kind.startswith("place-"):
             st, si, p = d
             if kind == "place-discr":
-                consumed = True          # matched
+                consumed = True          # matched: the error arm is inspected path-wise by _matched_arms
+                _MATCHED.add(body.defn)
                 continue
             if kind == "place-ref":
                 tgt = st["place"]
@@ -184,6 +231,7 @@ def _check_side(an, rep, side, rule_id, crate=None, roots=None):
                  % side)
     core = crate or an.core()
     _CRATE[0] = core
+    _MATCHED.clear()
     cg = callgraph.CallGraph(core)
     selftest = roots is not None
     if roots is None:
@@ -206,6 +254,7 @@ def _check_side(an, rep, side, rule_id, crate=None, roots=None):
             okk, why = _flows_ok(b, dest["local"], set())
             R.check(okk, b.key, "result of " + info["key"], "library error is not propagated: %s" % why, mir.loc(b, bb),
                     {"call_path_from_root": path}, sample={"fn": b.key, "result_of": info["key"], "fate": why})
+    _matched_arms(R, core, set(_MATCHED) & set(paths))
     if selftest:
         return R
     R.floor("fallible library calls inspected", n, 60 if side == "decode" else 40)
